@@ -104,3 +104,58 @@ func c15R10(p *Prog, r *Report) {
 		}
 	}
 }
+
+// C15.R11: reflection accessors that panic on the wrong kind are reached only under a test of the
+// kind.  (reflect.Value).Int panics unless the value's kind is one of the signed integer kinds
+// (likewise Uint, Float); a packet's payload can be of any decodable type (a multi-component
+// format is kept as bytes), so an accessor that reads samples through reflection must have
+// selected the integer element kinds first.  Each such call in the package must be control
+// dependent on an equality test of a Kind() result against a constant of the matching family.
+func c15R11(p *Prog, r *Report, fns []*ssa.Function) {
+	family := map[string][2]int64{"Int": {2, 6}, "Uint": {7, 12}, "Float": {13, 14}}
+	n := 0
+	for _, fn := range fns {
+		Instrs(fn, func(in ssa.Instruction) {
+			cc := CallOf(in)
+			if cc == nil || cc.StaticCallee() == nil {
+				return
+			}
+			name := CalleeName(cc)
+			var fam string
+			for f := range family {
+				if name == "(reflect.Value)."+f {
+					fam = f
+				}
+			}
+			if fam == "" {
+				return
+			}
+			n++
+			r.Fn(FuncName(fn))
+			lo, hi := family[fam][0], family[fam][1]
+			guarded := false
+			for _, cd := range controlDependencesClosure(in.Block()) {
+				bo, ok := cd.If.Cond.(*ssa.BinOp)
+				if !ok || (bo.Op != token.EQL && bo.Op != token.NEQ) {
+					continue
+				}
+				for _, pair := range [][2]ssa.Value{{bo.X, bo.Y}, {bo.Y, bo.X}} {
+					k, isC := constInt(pair[1])
+					if !isC || k < lo || k > hi {
+						continue
+					}
+					if c2, isCall := stripConv(pair[0]).(*ssa.Call); isCall && strings.HasSuffix(CalleeName(&c2.Call), ".Kind") {
+						if (bo.Op == token.EQL && cd.Branch == 0) || (bo.Op == token.NEQ && cd.Branch == 1) {
+							guarded = true
+						}
+					}
+				}
+			}
+			r.Check(guarded, "C15.R11", fmt.Sprintf("(reflect.Value).%s in %s is reached only for values of that kind", fam, FuncName(fn)), p.InstrPos(in), "under an equality test of Kind() against a kind of the "+fam+" family",
+				"(reflect.Value)."+fam+" panics for a value of another kind, and nothing on the way here selects the kind: a packet whose payload is kept in another element type (the bytes of a multi-component format such as the external-trigger packets) makes this accessor panic instead of returning")
+		})
+	}
+	if n == 0 {
+		r.OK("C15.R11", "reflection accessors", "-", "no call of (reflect.Value).Int/Uint/Float in the package")
+	}
+}
